@@ -480,8 +480,13 @@ func c02T4(l *core.Ledger, r *rt) {
 			}
 		}
 		multicast := ep.fn.Signature.Results().Len() == 0
+		countUp := false
+		if !multicast && exp == nil && sent != nil {
+			// the expected number counted up from 0, once per request handed to a node
+			countUp = true
+		}
 		switch {
-		case !multicast && exp == nil:
+		case !multicast && exp == nil && !countUp:
 			l.Bad("C02-T4", key+"/expected", ep.fn.Pos(), "no expected-replies counter initialised from len(c) is maintained across the send loop")
 			continue
 		case multicast && sent == nil && exp == nil:
@@ -526,6 +531,9 @@ func c02T4(l *core.Ledger, r *rt) {
 			l.OK("C02-T4", key, ep.fn.Pos(), fmt.Sprintf("%d paths through the send loop body: #enqueue + #decrement = 1 on each; skip only on !IsValid", len(li.paths)))
 		}
 		// the counter reaches the reply loop
+		if countUp {
+			exp = sent
+		}
 		if exp != nil && !multicast {
 			reaches := false
 			// (a) used directly by an exhaustion test in this function, or (b) stored in the state literal's expectedReplies field
